@@ -217,6 +217,8 @@ def r6(ctx):
                 cal = cl["callee"]
                 if cal in extra or cal.startswith(allowed_prefix):
                     continue
+                if cal in {x["helper"] for x in c.f.get("_inlined", [])}:
+                    continue      # a new private helper: its body was spliced in and its own calls are judged here (sa/inline.py)
                 if cal.startswith("core::iter::") or cal.startswith("std::iter::") or "Range" in cal or "IntoIterator" in cal or cal.startswith("core::ops::"):
                     continue  # for-loop desugaring over a Range
                 if cal.startswith("core::slice::index") or cal.startswith("std::ops::Deref") or "deref" in cal:
